@@ -315,6 +315,19 @@ def _identity(I, a, b):
         if isinstance(other, (bool, SBool)):
             return equals(I, a, b)
         return False
+    for x, y in ((a, b), (b, a)):
+        if isinstance(x, Opaque) and x.pykind in ('object', 'bool') and isinstance(y, bool):
+            # a value of unknown kind may be that very singleton: undetermined, but the same
+            # answer every time on one path
+            memo = I.path.ghost.setdefault('opaque_is', {})
+            key = (id(x), y)
+            if key not in memo:
+                I.path._keep.append(x)
+                memo[key] = SBool(fresh("is_%s" % y, z3.BoolSort()))
+                other = memo.get((id(x), not y))
+                if other is not None:
+                    I.path.assume(z3.Not(z3.And(memo[key].t, other.t)))
+            return memo[key]
     if isinstance(a, (Obj, ExcVal, Opaque)) or isinstance(b, (Obj, ExcVal, Opaque)):
         return a is b
     if isinstance(a, SSeq) or isinstance(b, SSeq):
@@ -415,7 +428,22 @@ def equals(I, a, b):
                 r = equals(I, list(fa[1]), list(fb[1]))
                 if r is True:
                     return True
-        return SBool(fresh("eq", z3.BoolSort()))
+        # an uninterpreted comparison: the same two values always compare the same way on a path
+        def _k(x):
+            if isinstance(x, Opaque):
+                so = x.fields.get('__str_of__')
+                return ('strof', so.t.get_id()) if isinstance(so, SInt) else ('o', id(x))
+            if isinstance(x, SSeq):
+                return ('s', x.to_z3().get_id())
+            if isinstance(x, (SInt, SBool)):
+                return ('t', x.t.get_id())
+            return ('v', id(x)) if is_symbolic(x) else ('c', repr(x))
+        memo = I.path.ghost.setdefault('opaque_eq', {})
+        key = frozenset([_k(a), _k(b)])
+        if key not in memo:
+            I.path._keep.extend([a, b])
+            memo[key] = SBool(fresh("eq", z3.BoolSort()))
+        return memo[key]
     if isinstance(a, ExcVal) or isinstance(b, ExcVal):
         return a is b
     if is_symbolic(a) or is_symbolic(b):
@@ -579,6 +607,24 @@ def _seq_take(I, s, n):
     return pre, chunks[i:]
 
 
+def _slice_symlist(I, v, lo, hi):
+    """L[lo:hi] on a list of symbolic length with non-negative bounds: the list term slice(L, lo, hi);
+    its length is max(0, min(hi, n) - min(lo, n))."""
+    n = v.length if not isinstance(v.length, int) else z3.IntVal(v.length)
+    lo_t = z3.IntVal(0) if lo is None else int_term(I.resolve_opt(lo))
+    hi_t = n if hi is None else int_term(I.resolve_opt(hi))
+    for t in (lo_t, hi_t):
+        if not I.path.is_valid(t >= 0):
+            if not I.path.branch(t >= 0):
+                raise OutOfFragment("negative slice bound on a list of symbolic length")
+    start = z3.If(lo_t < n, lo_t, n)
+    stop = z3.If(hi_t < n, hi_t, n)
+    ln = fresh("slicelen")
+    I.path.assume(ln == z3.If(stop > start, stop - start, 0))
+    return _pyvc().LTerm('slice', v, {'lo': None if lo is None else lo_t, 'hi': None if hi is None else hi_t},
+                         v.name + ".slice", ln, v.elem_factory, v.taint)
+
+
 def slice_(I, v, lo, hi, step):
     v = I.resolve_opt(v)
     if step is not None and step != 1:
@@ -598,6 +644,8 @@ def slice_(I, v, lo, hi, step):
         raise OutOfFragment("list slice with symbolic bounds")
     if isinstance(v, Opaque):
         return Opaque(v.pykind, 'slice', v.taint)
+    if isinstance(v, _pyvc().SList):
+        return _slice_symlist(I, v, lo, hi)
     if not is_seq_like(v):
         raise OutOfFragment("slice of %r" % (v,))
     s = seq_of(v)
